@@ -604,6 +604,16 @@ func genC07(r *Rand, tier, profile string) *Case {
 			}
 			pid++
 		}
+		// subscriptions while gossip is still in flight (no anti-entropy in between): a node must
+		// replay what the newest updates it has been given say
+		for n := r.Intn(3); n > 0; n-- {
+			t += int64(r.Range(1, 700))
+			cl := r.Intn(nc)
+			f := r.Pick(filters)
+			ts = append(ts, tstep{t, Step{K: "sub", C: cl, L: []string{f}, QL: []int{r.Intn(3)}, I: int64(pid)}})
+			pid++
+			t += 1400
+		}
 		t += 30
 		ts = append(ts, tstep{t, Step{K: "settle"}})
 		t += settleDur + 20
@@ -622,77 +632,183 @@ func genC07(r *Rand, tier, profile string) *Case {
 	return c
 }
 
+// retainedKnowledge reconstructs, per node, the ordered list of retained-message updates that
+// node has originated or been handed (decoded from the real gossip and push-pull bytes). What a
+// node replays to a new subscriber must be the LWW fold of exactly that, whatever the delivery
+// order, loss or duplication was.
+type rkEvent struct {
+	ord int64
+	e   kEntry
+}
+
+func (w *world) retainedKnowledge() (map[int][]rkEvent, map[string]bool) {
+	out := map[int][]rkEvent{}
+	unaligned := map[string]bool{}
+	// local updates: a node only ever emits its own; distinct (topic, stamp) in stamp order
+	local := map[int]map[string][]kEntry{}
+	seen := map[string]bool{}
+	for _, r := range w.recv {
+		if r.Src != "emit" {
+			for _, e := range r.Entries {
+				if strings.HasPrefix(e.Key, "R|") {
+					out[r.Node] = append(out[r.Node], rkEvent{r.Ord, e})
+				}
+			}
+			continue
+		}
+		for _, e := range r.Entries {
+			if !strings.HasPrefix(e.Key, "R|") {
+				continue
+			}
+			id := fmt.Sprintf("%d|%s|%d", r.Node, e.Key, e.Stamp)
+			if seen[id] {
+				continue
+			}
+			seen[id] = true
+			if local[r.Node] == nil {
+				local[r.Node] = map[string][]kEntry{}
+			}
+			local[r.Node][e.Key] = append(local[r.Node][e.Key], e)
+		}
+	}
+	// the scenario's retained publishes, per node and topic, in execution order
+	ops := map[int]map[string][]int64{}
+	for si, s := range w.c.Steps {
+		if s.K != "pub" || !s.F || w.txStamp(si, s.C, tPUBLISH) < 0 {
+			continue
+		}
+		cl := w.clients[s.C]
+		if cl == nil {
+			continue
+		}
+		key := "R|" + cl.mount + "/" + s.T
+		if ops[cl.node] == nil {
+			ops[cl.node] = map[string][]int64{}
+		}
+		ops[cl.node][key] = append(ops[cl.node][key], w.stepOrd[si])
+	}
+	for n, byKey := range local {
+		for key, ups := range byKey {
+			sort.Slice(ups, func(a, b int) bool { return ups[a].Stamp < ups[b].Stamp })
+			os := ops[n][key]
+			if len(os) != len(ups) {
+				unaligned[key] = true
+				continue
+			}
+			for i, u := range ups {
+				out[n] = append(out[n], rkEvent{os[i], u})
+			}
+		}
+	}
+	for n, byKey := range ops {
+		for key, os := range byKey {
+			if len(local[n][key]) != len(os) {
+				unaligned[key] = true
+			}
+		}
+	}
+	return out, unaligned
+}
+
 func judgeRetained(w *world) {
-	ref := map[string]string{}
 	endMs := w.nowMs()
+	know, unaligned := w.retainedKnowledge()
 	type window struct{ from, to int64 }
 	windows := map[int][]window{}
-	judged, wild := 0, 0
+	judged, wild, unsettled := 0, 0, 0
 	for si, s := range w.c.Steps {
-		switch s.K {
-		case "pub":
-			if !s.F || w.txStamp(si, s.C, tPUBLISH) < 0 {
+		if s.K != "sub" {
+			continue
+		}
+		cl := w.clients[s.C]
+		st := w.txStamp(si, s.C, tSUBSCRIBE)
+		if st < 0 || !w.clientAliveThrough(cl) {
+			continue
+		}
+		ok, ackAt := w.ackSeen(s.C, cl.epoch, tSUBACK, int(s.I), st)
+		if !ok {
+			continue
+		}
+		from, to := w.stepAt[si], w.stepAt[si]+1300
+		windows[s.C] = append(windows[s.C], window{from, to})
+		f := s.L[0]
+		// LWW fold of what this node knew when the SUBSCRIBE was processed
+		best := map[string]kEntry{}
+		skip := false
+		for _, ev := range know[cl.node] {
+			if ev.ord > w.stepOrd[si] {
 				continue
 			}
-			if s.S == "" {
-				delete(ref, s.T)
-			} else {
-				ref[s.T] = s.S
+			if cur, has := best[ev.e.Key]; !has || cur.Stamp < ev.e.Stamp {
+				best[ev.e.Key] = ev.e
 			}
-		case "sub":
-			cl := w.clients[s.C]
-			st := w.txStamp(si, s.C, tSUBSCRIBE)
-			if st < 0 || !w.clientAliveThrough(cl) {
-				continue
+		}
+		want := map[string]int{}
+		for key, e := range best {
+			topic := strings.TrimPrefix(key, "R|"+cl.mount+"/")
+			if topic == key || !refMatch(f, topic) {
+				continue // another mount point, or no match
 			}
-			ok, ackAt := w.ackSeen(s.C, cl.epoch, tSUBACK, int(s.I), st)
-			if !ok {
-				continue
+			if unaligned[key] {
+				skip = true
 			}
-			from, to := w.stepAt[si], w.stepAt[si]+1300
-			windows[s.C] = append(windows[s.C], window{from, to})
-			f := s.L[0]
-			want := map[string]int{}
-			for topic, payload := range ref {
-				if refMatch(f, topic) {
-					want[topic+"="+payload]++
+			if e.Live {
+				want[topic+"="+tagOf([]byte(e.Val))]++
+			}
+		}
+		for key := range unaligned {
+			topic := strings.TrimPrefix(key, "R|"+cl.mount+"/")
+			if topic != key && refMatch(f, topic) {
+				skip = true
+			}
+		}
+		if skip {
+			w.o.probe("subscribe_not_judged_unaligned_local_updates")
+			continue
+		}
+		got := map[string]int{}
+		for _, ob := range w.obs {
+			if ob.Rx && ob.Client == s.C && ob.P.Type == tPUBLISH && ob.P.Retain && ob.AtMs >= from && ob.AtMs < to {
+				got[ob.P.Topic+"="+tagOf(ob.P.Payload)]++
+				if ob.AtMs < ackAt {
+					w.o.probe("retained_before_suback")
 				}
 			}
-			got := map[string]int{}
-			for _, ob := range w.obs {
-				if ob.Rx && ob.Client == s.C && ob.P.Type == tPUBLISH && ob.P.Retain && ob.AtMs >= from && ob.AtMs < to {
-					got[ob.P.Topic+"="+tagOf(ob.P.Payload)]++
-					if ob.AtMs < ackAt {
-						w.o.probe("retained_before_suback")
-					}
-				}
+		}
+		judged++
+		if strings.ContainsAny(f, "+#") {
+			wild++
+		}
+		settled := false
+		for _, st := range w.settles {
+			if st.AtMs <= w.stepAt[si] && w.stepAt[si]-st.AtMs < 600 {
+				settled = true
 			}
-			// collapse retransmissions (same id) — none expected with prompt acks, but be exact
-			judged++
-			if strings.ContainsAny(f, "+#") {
-				wild++
+		}
+		if !settled {
+			unsettled++
+		}
+		var missing, extra []string
+		for k, n := range want {
+			if got[k] < n {
+				missing = append(missing, k)
 			}
-			var missing, extra []string
-			for k, n := range want {
-				if got[k] < n {
-					missing = append(missing, k)
-				}
+		}
+		for k, n := range got {
+			if n > want[k] {
+				extra = append(extra, fmt.Sprintf("%s(x%d)", k, n-want[k]))
 			}
-			for k, n := range got {
-				if n > want[k] {
-					extra = append(extra, fmt.Sprintf("%s(x%d)", k, n-want[k]))
-				}
-			}
-			sort.Strings(missing)
-			sort.Strings(extra)
-			if len(missing) > 0 {
-				w.o.violate("C07", "retained-missing", si, endMs, map[string]string{"wildcard": fmt.Sprint(strings.ContainsAny(f, "+#")), "same_node": fmt.Sprint(true)},
-					"client %d subscribed to %q on node %d; the reference holds retained %v for it but %v was not replayed (got %v)", s.C, f, cl.node, keysOfCount(want), missing, keysOfCount(got))
-			}
-			if len(extra) > 0 {
-				w.o.violate("C07", "retained-extra", si, endMs, map[string]string{"wildcard": fmt.Sprint(strings.ContainsAny(f, "+#"))},
-					"client %d subscribed to %q on node %d; it was sent retained %v beyond the reference %v", s.C, f, cl.node, extra, keysOfCount(want))
-			}
+		}
+		sort.Strings(missing)
+		sort.Strings(extra)
+		attrs := map[string]string{"wildcard": fmt.Sprint(strings.ContainsAny(f, "+#")), "right_after_settle": fmt.Sprint(settled)}
+		if len(missing) > 0 {
+			w.o.violate("C07", "retained-missing", si, endMs, attrs,
+				"client %d subscribed to %q on node %d; the newest updates that node had been given say retained %v, but %v was not replayed (got %v)", s.C, f, cl.node, keysOfCount(want), missing, keysOfCount(got))
+		}
+		if len(extra) > 0 {
+			w.o.violate("C07", "retained-extra", si, endMs, attrs,
+				"client %d subscribed to %q on node %d; it was sent retained %v, which is not what the newest updates that node had been given say (%v)", s.C, f, cl.node, extra, keysOfCount(want))
 		}
 	}
 	// a retain flag outside a subscribe window means a live copy was flagged
@@ -712,7 +828,8 @@ func judgeRetained(w *world) {
 		}
 	}
 	w.o.Stats["subscribes_judged"] += int64(judged)
-	w.o.Nontrivial = judged > 0 && len(ref) > 0
+	w.o.Stats["subscribes_judged_before_anti_entropy"] += int64(unsettled)
+	w.o.Nontrivial = judged > 0 && len(w.recv) > 0
 	_ = wild
 }
 
